@@ -205,6 +205,10 @@ def drop_shared_context():
     _shared["ctx"] = None
 
 
+_slow = {"n": 0}  # scripts of this task that ran into the 5 s time limit or the CPU alarm
+MAX_SLOW_PER_TASK = 6  # a task gives up after that many (normal cases take ~1 ms); the run is then marked truncated
+
+
 def run_script(src, ctx=None):
     """-> ("ok", value) | ("err", exc_info); in a fresh context unless one is given"""
     m = engine.load()
@@ -212,8 +216,11 @@ def run_script(src, ctx=None):
         with pool.cpu_alarm(10):
             return ("ok", (ctx or m.Context(time_limit=5)).eval(src))
     except pool.HarnessTimeout:
+        _slow["n"] += 1
         return ("err", {"cls": "HANG", "family": False, "message": "cpu alarm"})
     except Exception as e:
+        if type(e).__name__ == "TimeLimitError":
+            _slow["n"] += 1
         return ("err", engine.exc_info(e))
 
 
@@ -741,6 +748,7 @@ MAX_MISMATCHES_PER_TASK = 60
 
 
 def _new_result():
+    _slow["n"] = 0
     return {"n": 0, "steps": 0, "nontrivial": 0, "keys": [], "classes": collections.Counter(), "mismatches": [],
             "samples": [], "oos": 0, "dropped": 0}
 
@@ -752,6 +760,9 @@ def _hist_classes(res, case):
 
 
 def _record_history(res, case, keyed):
+    if _slow["n"] > MAX_SLOW_PER_TASK:
+        res["aborted"] = res.get("aborted", 0) + 1
+        return
     mm, nontriv, oos = judge_history(case, True)
     if oos:
         res["oos"] += 1
@@ -814,6 +825,9 @@ def task_hist_seeded(task):
 
 
 def _record_method(res, case):
+    if _slow["n"] > MAX_SLOW_PER_TASK:
+        res["aborted"] = res.get("aborted", 0) + 1
+        return
     mm, oos = judge_method(case, True)
     if oos:
         res["oos"] += 1
@@ -913,6 +927,9 @@ def _merge(chk, results, tasks, sub, counts_steps):
         for k, v in r["classes"].items():
             chk.classify(k, v)
         chk.extra["reference_out_of_scope"] = chk.extra.get("reference_out_of_scope", 0) + r["oos"]
+        if r.get("aborted"):
+            chk.truncated = True
+            chk.extra["cases_skipped_after_timeouts"] = chk.extra.get("cases_skipped_after_timeouts", 0) + r["aborted"]
         for s in r["samples"]:
             chk.sample(s, cls=sub, per_class=4)
         for mm in r["mismatches"]:
